@@ -210,18 +210,19 @@ type c12FlowCase struct {
 	Scope    string `json:"scope"`    // requested scope list
 	Audience string `json:"audience"` // requested audience list
 	AudStrat string `json:"aud_strategy"`
+	Consent  string `json:"consent,omitempty"` // "" = everything requested is granted | partial = only the first scope and the first audience
 }
 
 var c12Flows = []string{"code", "implicit", "hyb-idt", "hyb-tok", "hyb-all", "client_credentials", "password", "device", "par", "jwt-bearer", "refresh"}
 var c12ScopeFamilies = []string{"a", "zzz", "a zzz", "a.x", "b", "b.c", "b.c.d", "*", "ab", "b.*", "a b.c", ""}
-var c12AudFamilies = []string{"", "https://api.example/a", "https://api.example/a/sub", "https://api.example/ab", "https://other.example", "http://api.example/a", "https://api.example/a https://other.example", "https://api.example"}
+var c12AudFamilies = []string{"", "https://api.example/a", "https://api.example/a/sub", "https://api.example/ab", "https://other.example", "http://api.example/a", "https://api.example/a https://other.example", "https://api.example", "https://api.example/a https://api.example/b", "https://api.example/b https://api.example/a/sub"}
 
 func c12RunFlow(c c12FlowCase, res *WRes) {
 	w := NewWorld(Profile{ScopeStrategy: c.Strategy, AudStrategy: c.AudStrat, RefreshScopes: []string{}})
 	reg := append(c05ClientScopes(c.Strategy), "openid")
 	cl := w.AddClient("C", "secret-C", false)
 	cl.Scopes = reg
-	cl.Audience = []string{"https://api.example/a"}
+	cl.Audience = []string{"https://api.example/a", "https://api.example/b"}
 	keyScopes := reg
 	if c.Flow == "jwt-bearer" {
 		// the key registration is narrower than the client's: only it may confine the grant
@@ -261,6 +262,26 @@ func c12RunFlow(c c12FlowCase, res *WRes) {
 	var o *Obs
 	var tokens []string
 	scope := c.Scope
+	aopt := AuthzOpts{}
+	grantedScopes, grantedAud := reqScopes, reqAud
+	if c.Consent == "partial" {
+		// the resource owner consents to the first requested scope (besides openid) and the first audience only
+		first := func(req []string) []string {
+			var out []string
+			taken := false
+			for _, s := range req {
+				if s == "openid" {
+					out = append(out, s)
+				} else if !taken {
+					out = append(out, s)
+					taken = true
+				}
+			}
+			return out
+		}
+		aopt.GrantScopes, aopt.GrantAud = first, first
+		grantedScopes, grantedAud = first(reqScopes), first(reqAud)
+	}
 	authz := func(rt string, extraScope string) *Obs {
 		p := url.Values{"client_id": {"C"}, "redirect_uri": {"https://C.example/cb"}, "state": {"state-12345678"}, "response_type": {rt}, "nonce": {"nonce-12345678"}}
 		sc := strings.TrimSpace(extraScope + " " + scope)
@@ -270,7 +291,7 @@ func c12RunFlow(c c12FlowCase, res *WRes) {
 		if c.Audience != "" {
 			p.Set("audience", c.Audience)
 		}
-		return w.Authorize(p, AuthzOpts{})
+		return w.Authorize(p, aopt)
 	}
 	redeem := func(code string) *Obs {
 		return w.Token(url.Values{"grant_type": {"authorization_code"}, "code": {code}, "redirect_uri": {"https://C.example/cb"}}, w.AuthFor("C"))
@@ -351,7 +372,7 @@ func c12RunFlow(c c12FlowCase, res *WRes) {
 		o = w.PAR(f, w.AuthFor("C"))
 		if ru := o.Str("request_uri"); ru != "" {
 			gotSomething = true
-			ao := w.Authorize(url.Values{"client_id": {"C"}, "request_uri": {ru}}, AuthzOpts{})
+			ao := w.Authorize(url.Values{"client_id": {"C"}, "request_uri": {ru}}, aopt)
 			if code := ao.Param("code"); code != "" {
 				t := redeem(code)
 				tokens = append(tokens, t.Str("access_token"), t.Str("refresh_token"))
@@ -416,7 +437,17 @@ func c12RunFlow(c c12FlowCase, res *WRes) {
 	if !gotSomething && scopeOK && audOK {
 		res.note("sanity:in-policy-request-refused:" + c.Flow + ":" + o.Class())
 	}
-	// tokens never carry what was not granted (here: granted = requested)
+	// one refresh: tokens obtained through later refreshes are confined in the same way
+	for _, t := range tokens {
+		if strings.HasPrefix(t, "ory_rt_") && c.Flow != "refresh" {
+			if ro := w.Token(url.Values{"grant_type": {"refresh_token"}, "refresh_token": {t}}, w.AuthFor("C")); issued(ro) {
+				tokens = append(tokens, ro.Str("access_token"), ro.Str("refresh_token"))
+				res.note("refreshed-token-payload-checked")
+			}
+			break
+		}
+	}
+	// tokens never carry what was not granted
 	for _, t := range tokens {
 		if t == "" {
 			continue
@@ -426,7 +457,7 @@ func c12RunFlow(c c12FlowCase, res *WRes) {
 			continue
 		}
 		allowed := map[string]bool{}
-		for _, s := range reqScopes {
+		for _, s := range grantedScopes {
 			allowed[s] = true
 		}
 		if strings.HasPrefix(c.Flow, "hyb") {
@@ -434,13 +465,13 @@ func c12RunFlow(c c12FlowCase, res *WRes) {
 		}
 		for _, s := range strings.Fields(io.Str("scope")) {
 			if !allowed[s] {
-				viol("C12/token-carries-ungranted-scope/flow="+c.Flow, fmt.Sprintf("token from flow %s carries scope %q that was not granted (%v)", c.Flow, s, reqScopes), "subset of granted", io.JSON)
+				viol("C12/token-carries-ungranted-scope/flow="+c.Flow+"/consent="+c.Consent, fmt.Sprintf("token from flow %s carries scope %q that was not granted (%v)", c.Flow, s, grantedScopes), "subset of granted", io.JSON)
 			}
 		}
 		auds, _ := io.JSON["aud"].([]any)
 		for _, a := range auds {
 			ok := false
-			for _, r := range reqAud {
+			for _, r := range grantedAud {
 				if r == a {
 					ok = true
 				}
@@ -449,7 +480,7 @@ func c12RunFlow(c c12FlowCase, res *WRes) {
 				ok = true
 			}
 			if !ok {
-				viol("C12/token-carries-ungranted-audience/flow="+c.Flow, fmt.Sprintf("token from flow %s carries audience %v that was not granted (%v)", c.Flow, a, reqAud), "subset of granted", io.JSON)
+				viol("C12/token-carries-ungranted-audience/flow="+c.Flow+"/consent="+c.Consent, fmt.Sprintf("token from flow %s carries audience %v that was not granted (%v)", c.Flow, a, grantedAud), "subset of granted", io.JSON)
 			}
 		}
 		res.note("token-payload-checked")
@@ -473,13 +504,19 @@ func init() {
 			return nil, err
 		}
 		res := &WRes{}
+		consents := []string{""}
+		if j.Flow == "code" || j.Flow == "implicit" || strings.HasPrefix(j.Flow, "hyb") || j.Flow == "par" {
+			consents = []string{"", "partial"}
+		}
 		for _, sc := range c12ScopeFamilies {
 			for _, au := range c12AudFamilies {
-				c := c12FlowCase{Flow: j.Flow, Strategy: j.Strategy, Scope: sc, Audience: au, AudStrat: j.AudStrat}
-				c12RunFlow(c, res)
-				res.Evals++
-				res.distinct(fmt.Sprintf("%+v", c))
-				res.sample(c)
+				for _, cs := range consents {
+					c := c12FlowCase{Flow: j.Flow, Strategy: j.Strategy, Scope: sc, Audience: au, AudStrat: j.AudStrat, Consent: cs}
+					c12RunFlow(c, res)
+					res.Evals++
+					res.distinct(fmt.Sprintf("%+v", c))
+					res.sample(c)
+				}
 			}
 		}
 		return res, nil
@@ -557,7 +594,7 @@ func init() {
 		}
 		jobs = append(jobs, c12StratJob{Strategy: "audience"})
 		r.Bounds = map[string]any{"segment_alphabet": c12Symbols, "max_segments": maxSeg, "strings": len(c12Strings(maxSeg)), "audience_urls": len(c12AudURLs()),
-			"flows": c12Flows, "scope_families": c12ScopeFamilies, "audience_families": c12AudFamilies, "strategies": []string{"exact", "wildcard", "hierarchic"}, "audience_strategies": []string{"default", "exact"}}
+			"flows": c12Flows, "scope_families": c12ScopeFamilies, "audience_families": c12AudFamilies, "strategies": []string{"exact", "wildcard", "hierarchic"}, "audience_strategies": []string{"default", "exact"}, "consent": "full, and partial (first scope + first audience only) for the authorization-endpoint flows; every refresh token obtained is refreshed once and the new tokens are checked too"}
 		r.Rule = "part 1: all (registered, requested) pairs of dotted strings over the segment alphabet up to max_segments, two-sided against the documented semantics (plus a fixed sub-grid of 2-element haystacks), all pairs of the audience URL grid; part 2: every flow x scope strategy x audience strategy x requested scope family x requested audience family on a fresh provider, one-sided (uncovered => nothing issued; token scope/aud within granted); distinct = distinct matching pairs + distinct flow cases"
 		r.Assumptions = []string{"documented semantics as transcribed in refstrat.go; empty segments absorbed by a trailing wildcard and host-case differences are don't-care"}
 		res := r.Pool.Do("c12strat", jobs, r.Deadline)
